@@ -3,6 +3,7 @@ import PdtVerif.Lemmas.EstimatorsCount
 import PdtVerif.Lemmas.EstimatorsParams
 import PdtVerif.Lemmas.EstimatorsIMH
 import PdtVerif.Lemmas.EstimatorsObj
+import PdtVerif.Lemmas.EstimatorsLife
 /-!
 # C19 — estimators are unbiased where promised; relaxed distributions are consistent
 
@@ -1489,5 +1490,182 @@ example : ((srsworObj [2] 3 [3, 3] [0, 1]).run [.partition, .expand [2], .partit
   obtain ⟨_, _, _, h⟩ := C19_obj_srswor_history [2] 3 [3, 3] [0, 1] rfl [.partition, .expand [2], .partition]
   rw [h]
   decide +kernel
+
+/-! ## The estimator OBJECT: assignments to public attributes and repeated calls (sixth round)
+
+Model: `estRun` / `attrsAfter` / `callsAt`, `isCall`, `directCall`, `imhCall` (Model/Estimators.lean).
+That the python `__call__`s read every attribute at call time - which is what makes this the right
+model - is correspondence only (harness: lives). -/
+section Life
+variable {A D R : Type}
+
+/-- **C19_life_history** (the estimator OBJECT, any class): after ANY history of attribute assignments
+and calls on an object constructed with the attribute values `a`, the object's state is the attribute
+values in force (`attrsAfter`: the assignments in order) and EVERY result returned so far is the call
+function evaluated at the attribute values in force at that call and at that call's draws
+(`callsAt`) - the value of a call is a function of (current attribute values, draws) only; nothing an
+earlier call or the constructor's arguments left behind reaches it. -/
+theorem C19_life_history (call : A → D → R) (a : A) (h : List (EstOp A D)) :
+    estRun call a h = (attrsAfter a h, (callsAt a h).map fun ad => call ad.1 ad.2) :=
+  estRun_eq call a h
+
+/-- **C19_life_fresh** (corollary; small, NOT counted as an obligation): the call that ends a history
+returns what a freshly constructed object with the attribute values in force returns on the same
+draws. -/
+theorem C19_life_fresh (call : A → D → R) (a : A) (h : List (EstOp A D)) (d : D) :
+    (estRun call a (h ++ [.call d])).2.getLast?
+      = (estRun call (attrsAfter a h) [.call d]).2.getLast? := by
+  rw [estRun_last]
+  simp [estRun, estStep]
+
+end Life
+
+section LifeMC
+variable {α σ : Type} [Field α]
+
+/-- **C19_life_is** (`C19_life_history` composed with `C19_is`): an ImportanceSamplingEstimator object
+constructed with ANY attribute values, after ANY history of assignments (`mc_samples`, `func`,
+`density`, `proposal`, `self_normalize`, `is_log`) and calls: if the attributes in force are
+`mc_samples = N ≥ 1`, `self_normalize = is_log = False` and a dominating proposal `Q` (a probability
+distribution on `Ω`), the average over `Ω^N` of the value of the NEXT call and of its gradient is
+`Σ_b P(b) f(b)` and its exact gradient, for the density and integrand IN FORCE.  (`isCall` divides by
+the attribute `mc_samples` as the code does and draws `mc_samples` points: both reads happen in the
+call.) -/
+theorem C19_life_is (Ω : List σ) (a0 : ISAttrs α σ) (h : List (EstOp (ISAttrs α σ) (List σ)))
+    (N : Nat) (hN : (N : α) ≠ 0)
+    (hmc : (attrsAfter a0 h).mcSamples = N)
+    (hsn : (attrsAfter a0 h).selfNormalize = false) (hlog : (attrsAfter a0 h).isLog = false)
+    (hq : ∀ b ∈ Ω, ((attrsAfter a0 h).proposal b).val ≠ 0)
+    (hsum : (Ω.map fun b => ((attrsAfter a0 h).proposal b).val).sum = 1) :
+    meanOver (fun b => ((attrsAfter a0 h).proposal b).val) N Ω
+        (fun t => lastValue (estRun isCall a0 (h ++ [.call t])))
+      = Dual.sum (Ω.map fun b => (attrsAfter a0 h).density b * (attrsAfter a0 h).func b) := by
+  have step : ∀ t ∈ tuples N Ω, lastValue (estRun isCall a0 (h ++ [.call t]))
+      = isEstimate ((t.map fun b => (⟨((attrsAfter a0 h).proposal b).val, ((attrsAfter a0 h).proposal b).grad,
+          (attrsAfter a0 h).density b, (attrsAfter a0 h).func b⟩ : ISPt α)).map ISPt.sample) := by
+    intro t ht
+    have hl := length_of_mem_tuples Ω N t ht
+    simp only [lastValue, estRun_last, Option.getD_some]
+    rw [isCall_eq _ t hsn hlog (by rw [hl, hmc])]
+    simp [ISPt.sample, List.map_map, Function.comp_def]
+  rw [meanOver_congr _ N Ω _ _ step]
+  generalize attrsAfter a0 h = a at hmc hsn hlog hq hsum ⊢
+  have key := C19_is (Ω.map fun b => (⟨(a.proposal b).val, (a.proposal b).grad, a.density b, a.func b⟩ : ISPt α))
+    (by simpa using hq) (by simpa [List.map_map, Function.comp_def] using hsum) N hN
+  rw [meanOver_map] at key
+  simpa [List.map_map, Function.comp_def] using key
+
+/-- **C19_life_direct** (composed with `C19_direct`): the same for a DirectEstimator object whose
+attributes in force are `mc_samples = N ≥ 1`, `is_log = False`, `cv = None` - whatever `cv_mean` an
+earlier configuration left behind (`directEstimate_nocv`), whatever it was constructed with. -/
+theorem C19_life_direct (Ω : List σ) (a0 : DirectAttrs α σ)
+    (h : List (EstOp (DirectAttrs α σ) (List σ))) (N : Nat) (hN : (N : α) ≠ 0)
+    (hmc : (attrsAfter a0 h).mcSamples = N) (hlog : (attrsAfter a0 h).isLog = false)
+    (hcv : (attrsAfter a0 h).cv = none)
+    (hp : ∀ b ∈ Ω, ((attrsAfter a0 h).proposal.p b).val ≠ 0)
+    (hsum : (Ω.map fun b => ((attrsAfter a0 h).proposal.p b).val).sum = 1) :
+    meanOver (fun b => ((attrsAfter a0 h).proposal.p b).val) N Ω
+        (fun t => lastValue (estRun directCall a0 (h ++ [.call t])))
+      = Dual.sum (Ω.map fun b => (attrsAfter a0 h).proposal.p b * (attrsAfter a0 h).func b) := by
+  have step : ∀ t ∈ tuples N Ω, lastValue (estRun directCall a0 (h ++ [.call t]))
+      = directEstimate ((t.map fun b => (⟨((attrsAfter a0 h).proposal.p b).val,
+          ((attrsAfter a0 h).proposal.p b).grad, (attrsAfter a0 h).func b, 0,
+          (attrsAfter a0 h).proposal.lv b⟩ : Pt α)).map (Pt.directSample false)) none := by
+    intro t ht
+    have hl := length_of_mem_tuples Ω N t ht
+    simp only [lastValue, estRun_last, Option.getD_some]
+    rw [directCall_eq _ t hlog (by rw [hl, hmc]), directEstimate_nocv]
+    · rw [List.map_map, Option.getD_some]
+      congr 1
+      apply List.map_congr_left
+      intro b _
+      simp [DirectAttrs.sample, Pt.directSample, Pt.logpD, hcv]
+    · intro s hs
+      simp only [List.mem_map] at hs
+      obtain ⟨b, _, rfl⟩ := hs
+      simp [DirectAttrs.sample, hcv]
+  rw [meanOver_congr _ N Ω _ _ step]
+  generalize attrsAfter a0 h = a at hmc hlog hcv hp hsum ⊢
+  have key := C19_direct (Ω.map fun b => (⟨(a.proposal.p b).val, (a.proposal.p b).grad, a.func b, 0,
+      a.proposal.lv b⟩ : Pt α))
+    ⟨by simpa using hp, by simpa [List.map_map, Function.comp_def] using hsum⟩ N hN
+  rw [meanOver_map] at key
+  simpa [expectD, Pt.pD, List.map_map, Function.comp_def] using key
+
+end LifeMC
+section LifeIMH
+variable {α σ : Type} [Field α] [LinearOrder α]
+
+/-- **C19_life_imh** (composed with `C19_imh_values`): an IMH object after any history of assignments
+(`mc_samples`, `burn_in`, `initial_sample`, `initial_sample_tries`, `density` / `proposal` = the
+log-ratio and the support test, `func`, `is_log`) and calls: with `is_log = False` and
+`burn_in < mc_samples` IN FORCE the next call returns the mean of the recorded values of the chain run
+with the attribute values in force (an error exactly when that list is undefined). -/
+theorem C19_life_imh (a0 : IMHAttrs α σ) (h : List (EstOp (IMHAttrs α σ) (List σ × List (Option α))))
+    (draws : List σ) (lus : List (Option α)) (hlog : (attrsAfter a0 h).isLog = false)
+    (hb : (attrsAfter a0 h).burnIn < (attrsAfter a0 h).mcSamples) :
+    (estRun imhCall a0 (h ++ [.call (draws, lus)])).2.getLast?
+      = some ((imhValues (attrsAfter a0 h).ratio (attrsAfter a0 h).func (attrsAfter a0 h).inSupport
+          (attrsAfter a0 h).mcSamples (attrsAfter a0 h).burnIn (attrsAfter a0 h).tries (attrsAfter a0 h).init
+          draws lus).map
+        (fun vs => vs.sum / (((attrsAfter a0 h).mcSamples - (attrsAfter a0 h).burnIn : Nat) : α))) := by
+  rw [estRun_last]
+  simp only [imhCall, hlog, Bool.false_eq_true, if_false]
+  rw [C19_imh_values _ _ _ _ _ _ _ _ _ hb]
+
+end LifeIMH
+
+/-! ### non-vacuity of the `C19_life_*` theorems -/
+
+/-- an importance-sampling object constructed for ONE sample, self-normalised, with another integrand;
+called; then `mc_samples`, `func`, `self_normalize` assigned -/
+def exISObj : ISAttrs Rat Nat :=
+  ⟨1, fun _ => ⟨7, 0⟩, fun i => if i = 0 then ⟨1/4, -1⟩ else ⟨3/4, 1⟩,
+    fun i => if i = 0 then ⟨1/2, 1⟩ else ⟨1/2, -1⟩, true, false⟩
+def exISHist : List (EstOp (ISAttrs Rat Nat) (List Nat)) :=
+  [.call [0], .set fun a => { a with mcSamples := 2 },
+   .set fun a => { a with func := fun i => if i = 0 then ⟨3, 0⟩ else ⟨5, 0⟩ },
+   .set fun a => { a with selfNormalize := false }]
+
+example : meanOver (fun b => ((attrsAfter exISObj exISHist).proposal b).val) 2 [0, 1]
+      (fun t => lastValue (estRun isCall exISObj (exISHist ++ [.call t]))) = ⟨9/2, 2⟩ := by
+  rw [C19_life_is [0, 1] exISObj exISHist 2 (by norm_num) rfl rfl rfl
+    (by intro b hb; simp at hb; rcases hb with rfl | rfl <;> norm_num [attrsAfter, exISObj, exISHist])
+    (by norm_num [attrsAfter, exISObj, exISHist])]
+  apply Dual.ext' <;> norm_num [attrsAfter, exISObj, exISHist, Dual.sum_val, Dual.sum_grad]
+
+/-- the object after the history IS the freshly constructed one (all six attributes) -/
+example : (estRun isCall exISObj (exISHist ++ [.call [1, 0]])).2.getLast?
+    = (estRun isCall ⟨2, fun i => if i = 0 then ⟨3, 0⟩ else ⟨5, 0⟩, exISObj.density, exISObj.proposal,
+        false, false⟩ [.call [1, 0]]).2.getLast? :=
+  C19_life_fresh isCall exISObj exISHist [1, 0]
+
+/-- an IMH object: constructed with burn_in 0 and 2 samples, called, `mc_samples := 3`, `burn_in := 1` -/
+def exIMHObj : IMHAttrs Rat Nat := ⟨2, 0, 3, fun i => (i : Rat), fun _ => 0, fun _ => true, some 0, false⟩
+def exIMHHist : List (EstOp (IMHAttrs Rat Nat) (List Nat × List (Option Rat))) :=
+  [.call ([1, 1], [some (-1), some (-1)]), .set fun a => { a with mcSamples := 3 },
+   .set fun a => { a with burnIn := 1 }]
+
+example : (estRun imhCall exIMHObj (exIMHHist ++ [.call ([4, 2, 6], [some (-1), some (-1), some (-1)])])).2.getLast?
+    = some (some 4) := by
+  rw [C19_life_imh exIMHObj exIMHHist _ _ rfl (by decide)]
+  decide +kernel
+
+
+/-- a DirectEstimator object constructed with a control variate and one sample; called; the control
+variate taken away (its `cv_mean` stays), `mc_samples := 2` -/
+def exDObj : DirectAttrs Rat Nat :=
+  ⟨1, fun i => if i = 0 then ⟨3, 0⟩ else ⟨5, 0⟩, some fun _ => ⟨1, 0⟩, some ⟨7, 0⟩,
+    ⟨fun i => if i = 0 then ⟨1/4, -1⟩ else ⟨3/4, 1⟩, fun _ => -1⟩, false⟩
+def exDHist : List (EstOp (DirectAttrs Rat Nat) (List Nat)) :=
+  [.call [1], .set fun a => { a with cv := none }, .set fun a => { a with mcSamples := 2 }]
+
+example : meanOver (fun b => ((attrsAfter exDObj exDHist).proposal.p b).val) 2 [0, 1]
+      (fun t => lastValue (estRun directCall exDObj (exDHist ++ [.call t]))) = ⟨9/2, 2⟩ := by
+  rw [C19_life_direct [0, 1] exDObj exDHist 2 (by norm_num) rfl rfl rfl
+    (by intro b hb; simp at hb; rcases hb with rfl | rfl <;> norm_num [attrsAfter, exDObj, exDHist])
+    (by norm_num [attrsAfter, exDObj, exDHist])]
+  apply Dual.ext' <;> norm_num [attrsAfter, exDObj, exDHist, Dual.sum_val, Dual.sum_grad]
+
 
 end PdtVerif.Estimators
